@@ -266,6 +266,20 @@ def r2(run: Run, rt):
             run.bad('C04.R2', f'_cell_preprocessor[{cp.label}]', 'missing', 'helper missing', loc=cp.path)
             continue
         uid = [a.arg for a in fn.args.args if a.arg != 'self'][0]
+        # a local that merely names the override map (overrides = self._arguments) is read as the map itself
+        import copy as _copy
+        al = {}
+        for st_ in ast.walk(fn):
+            if isinstance(st_, ast.Assign) and len(st_.targets) == 1 and isinstance(st_.targets[0], ast.Name):
+                al.setdefault(st_.targets[0].id, []).append(st_.value)
+        al = {k: v[0] for k, v in al.items() if len(v) == 1 and ast.unparse(v[0]) == 'self._arguments'}
+        if al:
+            class _A(ast.NodeTransformer):
+                def visit_Name(self, node):
+                    if node.id in al and isinstance(node.ctx, ast.Load):
+                        return ast.copy_location(_copy.deepcopy(al[node.id]), node)
+                    return node
+            fn = ast.fix_missing_locations(_A().visit(_copy.deepcopy(fn)))
         parents = parent_map(fn)
         # the call of the generated member: <something>(self) where <something> was looked up by the uid
         calls = [n for n in ast.walk(fn) if isinstance(n, ast.Call) and len(n.args) == 1 and isinstance(n.args[0], ast.Name) and
